@@ -124,6 +124,47 @@ fn substitute(ts: TokenStream, subst: &[(&str, &str)]) -> TokenStream {
     out.into_iter().collect()
 }
 
+/// `const NAME = <integer literal>;` entries of `bitflags! { ... struct <ty>: uN { ... } }`
+fn bitflag_consts(items: &[Item], ty: &str) -> Vec<(String, String)> {
+    let mut out = vec![];
+    for it in items {
+        if let Item::Macro(m) = it {
+            if last_ident(&m.mac.path) != "bitflags" {
+                continue;
+            }
+            let tts: Vec<TokenTree> = m.mac.tokens.clone().into_iter().collect();
+            let mut is_ty = false;
+            for (i, t) in tts.iter().enumerate() {
+                if let TokenTree::Ident(id) = t {
+                    if id == "struct" {
+                        is_ty = matches!(tts.get(i + 1), Some(TokenTree::Ident(n)) if n == ty);
+                    }
+                }
+                if let (true, TokenTree::Group(g)) = (is_ty, t) {
+                    if g.delimiter() != Delimiter::Brace {
+                        continue;
+                    }
+                    let inner: Vec<TokenTree> = g.stream().into_iter().collect();
+                    for j in 0..inner.len() {
+                        if let (Some(TokenTree::Ident(c)), Some(TokenTree::Ident(n)), Some(TokenTree::Punct(eq)), Some(TokenTree::Literal(l)), Some(TokenTree::Punct(semi))) =
+                            (inner.get(j), inner.get(j + 1), inner.get(j + 2), inner.get(j + 3), inner.get(j + 4))
+                        {
+                            if c == "const" && eq.as_char() == '=' && semi.as_char() == ';' {
+                                if let Ok(li) = syn::parse_str::<syn::LitInt>(&l.to_string()) {
+                                    if let Ok(v) = li.base10_parse::<u128>() {
+                                        out.push((n.to_string(), v.to_string()));
+                                    }
+                                }
+                            }
+                        }
+                    }
+                }
+            }
+        }
+    }
+    out
+}
+
 fn json_str(s: &str) -> String {
     let mut o = String::from("\"");
     for ch in s.chars() {
@@ -155,6 +196,19 @@ fn main() {
     let mut defs: BTreeMap<&str, Vec<String>> = BTreeMap::new();
     let mut status: Vec<String> = vec![];
     let mut failed = 0;
+    let mut table = table;
+    // `Self::NAME` constants of bitflags! types, read from the source
+    for spec in table.iter_mut() {
+        if let Some(bf) = spec.bitflags {
+            let path = format!("{}/{}", repo, spec.file);
+            if let Ok(file) = std::fs::read_to_string(&path).map_err(|e| e.to_string()).and_then(|s| syn::parse_file(&s).map_err(|e| e.to_string())) {
+                for (n, v) in bitflag_consts(&file.items, bf) {
+                    spec.consts.push((format!("Self :: {}", n), v, specs::Ty::Int(32)));
+                }
+            }
+        }
+    }
+    let table = table;
     for spec in &table {
         if !modules.contains(&spec.module) {
             modules.push(spec.module);
@@ -173,7 +227,7 @@ fn main() {
             let f = &found[0];
             let out = trans::translate(spec, &f.sig, &f.body, &sigs).map_err(|e| match e {
                 trans::TErr::Unsupported(s) => format!("unsupported construct: {}", s),
-                trans::TErr::NeedMonad => "internal: NeedMonad".to_string(),
+                trans::TErr::NeedMonad | trans::TErr::NeedWrap => "internal: no translation mode applies".to_string(),
             })?;
             Ok((out, f.line))
         })();
